@@ -1,4 +1,6 @@
 import Zc.Model.Dns
+import Zc.Proofs.DnsCase
+import Zc.GenFacts.FnDns
 /-! # C20 — record identity
 
 Equal records hash equal; case, TTL, creation time and the cache-flush bit are ignored;
@@ -6,8 +8,18 @@ records of different kinds are never equal; questions are identified by
 case-insensitive name, type and class.
 
 `Rec.beq`/`Rec.hashKey` are defined from the field lists *generated* from `_dns.py`, and
-`str.lower` is an arbitrary function `lower`, so the theorems hold for whatever case
-folding Python implements. -/
+`str.lower` is an arbitrary function `lower`.  Most theorems therefore say "equal under the code's
+own `lower`" and hold for *any* `lower`, including `id` — they do **not** by themselves say that
+case is ignored.  The case clause is `C20_case_ignored` (records, PTR target, SRV host),
+`C20_question_case_ignored`: for every `lower` that identifies the case variants produced by some
+`upper` (`IdentifiesCase lower upper : ∀ s, lower (upper s) = lower s`), re-spelling with `upper`
+changes neither identity nor hash; `asciiLower`/`asciiUpper` satisfy the hypothesis
+(`asciiLower_identifies_ascii_case`).  That Python's `str.lower` identifies the case variants that
+matter (ASCII, `K` U+212A / `k`, `É`/`é`, `ẞ`/`ß`, `İ`/`i̇`) and nothing else (`ß`/`ss`, `ſ`/`s`,
+a missing trailing dot, white space, NFC/NFD) is decided on the real code by the harness, whose
+oracle and driver lines fold with a hand-written table, not with `str.lower`.
+Reading: "case-insensitively" = equality after Unicode lower-casing, not ASCII-only folding (which
+RFC 6762 §16 would suggest) and not `casefold()`. -/
 namespace Zc
 open Zc.Gen.Ident
 
@@ -205,6 +217,100 @@ theorem C20_rrset_none (rs : List Rec) (r : Rec)
     rw [C20_eq_iff] at hp
     exact absurd hp (h o (by simpa using hm))
 
+/-! ### "case-insensitively"
+
+Everything above is for an arbitrary `lower`.  The clause itself needs a `lower` that identifies case variants. -/
+
+/-- `lower` identifies the case variants that `upper` produces -/
+def IdentifiesCase (lower upper : String → String) : Prop := ∀ s, lower (upper s) = lower s
+
+/-- the hypothesis is satisfiable: ASCII lowering identifies what ASCII upper-casing produces … -/
+theorem asciiLower_identifies_ascii_case : IdentifiesCase asciiLower asciiUpper := asciiLower_asciiUpper
+
+/-- … and it is a real hypothesis: the identity function does not -/
+example : ¬ IdentifiesCase id asciiUpper := fun h => by
+  have e : (asciiUpper "a").toList = "a".toList := congrArg String.toList (h "a")
+  rw [asciiUpper, String.toList_map] at e
+  exact absurd e (by decide)
+
+/-- **Case is ignored**: re-spelling the owner name, a PTR record's target or an SRV record's target host in another
+case (any `upper` whose variants `lower` identifies) yields the same record with the same hash. -/
+theorem C20_case_ignored (upper : String → String) (h : IdentifiesCase lower upper) (a : Rec) :
+    (({ a with name := upper a.name } : Rec).beq lower a = true
+      ∧ ({ a with name := upper a.name } : Rec).hashKey lower = a.hashKey lower)
+    ∧ (∀ t, a.rdata = .ptr t →
+        ({ a with rdata := .ptr (upper t) } : Rec).beq lower a = true
+        ∧ ({ a with rdata := .ptr (upper t) } : Rec).hashKey lower = a.hashKey lower)
+    ∧ (∀ p w q s, a.rdata = .srv p w q s →
+        ({ a with rdata := .srv p w q (upper s) } : Rec).beq lower a = true
+        ∧ ({ a with rdata := .srv p w q (upper s) } : Rec).hashKey lower = a.hashKey lower) := by
+  refine ⟨?_, ?_, ?_⟩
+  · have e : ({ a with name := upper a.name } : Rec).beq lower a = true := by
+      rw [C20_eq_iff]; exact ⟨rfl, by simp [Rec.specIdent, h a.name]⟩
+    exact ⟨e, C20_hash lower _ _ e⟩
+  · intro t ht
+    have e : ({ a with rdata := .ptr (upper t) } : Rec).beq lower a = true := by
+      rw [C20_eq_iff]; simp [Rec.specIdent, RData.ident, RData.kind, ht, h t]
+    exact ⟨e, C20_hash lower _ _ e⟩
+  · intro p w q s hs
+    have e : ({ a with rdata := .srv p w q (upper s) } : Rec).beq lower a = true := by
+      rw [C20_eq_iff]; simp [Rec.specIdent, RData.ident, RData.kind, hs, h s]
+    exact ⟨e, C20_hash lower _ _ e⟩
+
+/-- the same, from raw constructor arguments (flush bit included) -/
+theorem C20_ctor_case_ignored (upper : String → String) (h : IdentifiesCase lower upper) (a : Rec) :
+    ({ a with name := upper a.name } : Rec).normCtor.beq lower a.normCtor = true := by
+  rw [C20_ctor_eq_iff]; exact ⟨rfl, h a.name, rfl, rfl, rfl⟩
+
+/-- questions: the name is compared case-insensitively -/
+theorem C20_question_case_ignored (upper : String → String) (h : IdentifiesCase lower upper) (q : Question) :
+    ({ q with name := upper q.name } : Question).beq lower q = true
+    ∧ ({ q with name := upper q.name } : Question).hashKey lower = q.hashKey lower := by
+  have e : ({ q with name := upper q.name } : Question).beq lower q = true := by
+    rw [C20_question]; simp [Question.specIdent, h q.name]
+  exact ⟨e, C20_question_hash lower _ _ e⟩
+
+/-- conversely nothing but `lower` is applied to names: spellings that `lower` keeps apart are different records
+(so a missing trailing dot, white space or another normalisation form is not "case") -/
+theorem C20_names_apart (a b : Rec) (h : lower a.name ≠ lower b.name) : a.beq lower b = false := by
+  rw [Bool.eq_false_iff, Ne, C20_eq_iff]
+  rintro ⟨_, hs⟩
+  exact h (by simpa [Rec.specIdent] using congrArg Prod.fst hs)
+
+/-! ### known-answer suppression by a whole message, duplicate removal in replies -/
+
+/-- `DNSRecord.suppressed_by(msg)`: the record is suppressed exactly when **some** answer of the message — not only the
+first — is the same record and carries more than half of its TTL -/
+theorem C20_suppressed_by_iff (a : Rec) (answers : List Rec) :
+    a.suppressedBy lower answers = true ↔
+      ∃ o ∈ answers, a.rdata.kind = o.rdata.kind ∧ a.specIdent lower = o.specIdent lower ∧ a.ttl < 2 * o.ttl := by
+  simp only [Rec.suppressedBy, List.any_eq_true, C20_suppressed_by_answer_iff]
+
+/-- **Duplicate removal in replies** (`_add_answers_additionals`): whatever order the additional records are taken in,
+the additional section (1) consists of given additionals, (2) contains no record that is the same record as an answer,
+(3) contains no two records that are the same record, and (4) loses nothing: every given additional is the same record as
+an answer or as a record of the additional section. -/
+theorem C20_reply_no_duplicates (answers adds : List Rec) :
+    let out := replyAdditionals lower answers adds
+    (∀ x ∈ out, x ∈ adds)
+    ∧ (∀ x ∈ out, ∀ o ∈ answers, o.beq lower x = false)
+    ∧ out.Pairwise (fun o x => o.beq lower x = false)
+    ∧ (∀ x ∈ adds, (∃ o ∈ answers, o.beq lower x = true) ∨ (∃ o ∈ out, o.beq lower x = true)) := by
+  have := replyFold_spec lower answers adds [] (by simp) List.Pairwise.nil
+  obtain ⟨r1, _, r3, r4, r5⟩ := this
+  refine ⟨fun x hx => ?_, r3, r4, r5⟩
+  rcases r1 x hx with h | h
+  · exact absurd h (by simp)
+  · exact h
+
+/-! ### a reading: NSEC type lists
+
+The rdata of an NSEC record is the constructor's type *list* (sorted by the constructor, not de-duplicated): a list with
+a repeated type is another rdata although the bitmap on the wire is the same.  The library never builds such a list (it
+passes sets / the decoder's bitmap read-out); the property's "rdata … equal" is read on the constructor arguments. -/
+example : (⟨"a.local.", 47, 1, false, 0, 0, .nsec "a.local." [1, 1]⟩ : Rec).beq id ⟨"a.local.", 47, 1, false, 0, 0, .nsec "a.local." [1]⟩ = false := by
+  rw [Bool.eq_false_iff, Ne, C20_eq_iff]; simp [Rec.specIdent, RData.ident]
+
 /-! non-vacuity: concrete records that differ only in TTL / creation time / flush bit are equal,
 and a differing rdata field separates them (with `lower := id`; the case-folding instance is
 exercised by the correspondence check) -/
@@ -216,6 +322,13 @@ example :
     (⟨"foo._http._tcp.local.", 33, 1, true, 120, 5, .srv 0 0 80 "host.local."⟩ : Rec).beq id
       ⟨"foo._http._tcp.local.", 33, 1, true, 120, 5, .srv 0 0 81 "host.local."⟩ = false := by
   rw [Bool.eq_false_iff, Ne, C20_eq_iff]; simp [Rec.specIdent, RData.ident]
+
+/-- with a folding `lower` (ASCII): the upper-case spelling of the owner name is the same record, same hash -/
+example :
+    (⟨asciiUpper "foo._http._tcp.local.", 33, 1, true, 120, 5, .srv 0 0 80 "host.local."⟩ : Rec).beq asciiLower
+      ⟨"foo._http._tcp.local.", 33, 1, true, 120, 5, .srv 0 0 80 "host.local."⟩ = true :=
+  (C20_case_ignored asciiLower asciiUpper asciiLower_identifies_ascii_case
+    ⟨"foo._http._tcp.local.", 33, 1, true, 120, 5, .srv 0 0 80 "host.local."⟩).1.1
 
 /-- the flush bit in the constructor's class does not separate records (class 1 vs 0x8001), another class does -/
 example :
@@ -238,5 +351,38 @@ example :
   have hb : (⟨"a.local.", 16, 1, false, 10, 0, .txt []⟩ : Rec).beq id ⟨"a.local.", 16, 1, false, 120, 0, .txt []⟩ = true :=
     (C20_eq_iff id _ _).mpr ⟨rfl, rfl⟩
   simp [rrsetSuppresses, rrsetLookup, List.find?, hb, Gen.Dns.rrset_suppresses_ttl]
+
+/-! ## Tie: `_suppressed_by_answer` / `suppressed_by`, translated statement by statement on every run
+
+`Zc.GenFn.Dns` is regenerated from the method *bodies* of `DNSRecord` (`tools/gen_fn.py`); `GenFacts/FnDns.lean` proves them
+equal to the model definitions used above.  So the clause holds of the translated source, with its `self == other` test
+(the identity above) and its loop over `msg.answers()`. -/
+section Tie
+open Zc.GenFn.Dns
+
+/-- the translated `DNSRecord._suppressed_by_answer`: same record and more than half of the TTL -/
+theorem C20_suppressed_by_answer_source (a b : Rec) :
+    DNSRecord.suppressed_by_answer lower a b = true ↔
+      a.rdata.kind = b.rdata.kind ∧ a.specIdent lower = b.specIdent lower ∧ a.ttl < 2 * b.ttl := by
+  rw [Zc.GenFacts.FnDns.suppressed_by_answer_eq]
+  exact C20_suppressed_by_answer_iff lower a b
+
+/-- the translated `DNSRecord.suppressed_by(msg)`: some answer of the message is the same record with more than half of the TTL -/
+theorem C20_suppressed_by_source (r : Rec) (answers : List Rec) :
+    DNSRecord.suppressed_by lower r answers = true ↔
+      ∃ o ∈ answers, r.rdata.kind = o.rdata.kind ∧ r.specIdent lower = o.specIdent lower ∧ r.ttl < 2 * o.ttl := by
+  rw [Zc.GenFacts.FnDns.suppressed_by_eq, List.any_eq_true]
+  constructor
+  · rintro ⟨o, ho, h⟩; exact ⟨o, ho, (C20_suppressed_by_answer_iff lower r o).1 h⟩
+  · rintro ⟨o, ho, h⟩; exact ⟨o, ho, (C20_suppressed_by_answer_iff lower r o).2 h⟩
+
+/-- non-vacuity: a known answer with TTL 61 suppresses a TTL-120 record in another spelling, one with TTL 60 does not -/
+example :
+    DNSRecord.suppressed_by id ⟨"a.local.", 16, 1, false, 120, 0, .txt [1]⟩
+        [⟨"b.local.", 16, 1, false, 4500, 0, .txt [1]⟩, ⟨"a.local.", 16, 1, true, 61, 5, .txt [1]⟩] = true
+    ∧ DNSRecord.suppressed_by id ⟨"a.local.", 16, 1, false, 120, 0, .txt [1]⟩ [⟨"a.local.", 16, 1, true, 60, 5, .txt [1]⟩] = false := by
+  decide
+
+end Tie
 
 end Zc
